@@ -25,7 +25,7 @@ def field (impl key : String) : Option String :=
 /-- C41 (cache clauses) on the implementation's answer.  `before` is the implementation's previous LRU
     order; `evictable k` says whether the entry stored under k may be evicted now (from the op history). -/
 def monitor (fs : List String) (impl : String) (prevLru : List Nat) (evictable : Nat → Bool) (prevCur : Int)
-    (sizeOf : Nat → Int) : String :=
+    (sizeOf : Nat → Int) (isExpired : Nat → Bool) (down : Bool) : String :=
   match (field impl "cur") >>= String.toInt?, (field impl "sum") >>= String.toInt?, (field impl "lru") >>= natList with
   | some cur, some sum, some lru =>
     if cur ≠ sum then s!"VIOL accounted size {cur} is not the sum of the entries' sizes {sum}"
@@ -44,6 +44,13 @@ def monitor (fs : List String) (impl : String) (prevLru : List Nat) (evictable :
             "VIOL resize evicted more entries than needed"
           else "ok"
         | none => "-"
+      | ["evict"] =>
+        if down then "ok"
+        else if lru ≠ prevLru.filter (fun k => lru.contains k) then "VIOL evictExpiredEntries reordered the LRU list"
+        else if (prevLru.filter fun k => ¬ lru.contains k).any (fun k => ¬ isExpired k) then
+          "VIOL evictExpiredEntries removed an entry that has not expired"
+        else if lru.any isExpired then "VIOL evictExpiredEntries left an expired entry"
+        else "ok"
       | _ => "ok"
   | _, _, _ => if impl.startsWith "PANIC" ∨ impl.startsWith "CRASH" then "-" else "VIOL unparsable: " ++ impl
 
@@ -59,9 +66,10 @@ def step : Step DSt := fun d fs impl =>
     let dc := d.dc
     let evictable (k : Nat) : Bool := match dc.entries k with | some e => decide (e.earliestEvict ≤ d.now) | none => true
     let sizeOf (k : Nat) : Int := ((dc.entries k).map (·.size)).getD 0
+    let isExpired (k : Nat) : Bool := match dc.entries k with | some e => expired d.now e | none => false
     let fin (d' : DSt) (res : String) : DSt × String × String :=
       if d'.broken then (d', "*", "-")
-      else (d', res ++ dump d'.dc, monitor fs impl dc.lru evictable dc.currentSize sizeOf)
+      else (d', res ++ dump d'.dc, monitor fs impl dc.lru evictable dc.currentSize sizeOf isExpired dc.shutdown)
     match nat, fs with
     | [_, some k, some sz, some ee, some ex, some bx, some hb, some ta], ["add", _, _, _, _, _, _, _] =>
       let e : Entry := { size := sz, earliestEvict := ee, expiry := ex, backoffExpiry := bx, hasBackoff := hb = 1,
